@@ -84,6 +84,9 @@ class C11(Prop):
         'brace/bracket, no trailing backslash, no % on the last line); '
         'NUL/DEL/CR are not used in bodies',
     )
+    probes = ('buf', 'reach')
+    probed_every = 10
+    reach_required = ['reader.read_skip_env', 'utils.Buffer.forward_until', 'utils.Buffer.startswith', 'reader.read_tex']
     min_nontrivial = 2000
     budget_s = {'quick': 200, 'thorough': 2400}
 
